@@ -228,6 +228,11 @@ async fn one_case(report: &Report, seed: u64, idx: u64) {
         }
     }
     let mut findings = sc.findings.clone();
+    if findings.is_empty() {
+        let (f, n) = aftermath(&out, &sc).await;
+        report.count("aftermath_rows_compared", n);
+        findings.extend(f);
+    }
     // indexed == unindexed on the final version
     if findings.is_empty() {
         let reader = Actor::new(out.world.new_actor(0));
